@@ -407,6 +407,9 @@ func (ex *Exec) decideP(conds []*Term, payloads []uint64, why string) int {
 		return d.choice
 	}
 	// new decision: feasibility of each alternative
+	if len(conds) > 64 && w.P.verbose {
+		fmt.Fprintf(os.Stderr, "wide decision (%d alternatives) %s%s\n", len(conds), why, ex.where())
+	}
 	var feas []int
 	for i, c := range conds {
 		if c.IsFalse() {
